@@ -1,9 +1,12 @@
 // FAMILY: C13
 //! C13: shard scans reassemble the table — `splits_of` + `assign_lpt` + `shard_context` for EVERY shard index, on REAL Parquet tables.
+//! Table columns: k (i64, key 0..n-1), v (i64 nullable, -3..12), w (i64 = 1_000_000 + 3k), s (string padding).
 //! Case {"kind":"shards","id","table":"t","nodes":N,"files":[recipe + derived "rgs"],"vals":[v|null for k = 0..n-1] (derived),
-//!       "queries":[{"cols":["k","v"],"filter":null|{"col","op","c","d"}}]}
+//!       "queries":[{"cols":[any non-empty sub-sequence / permutation of k,v,w],"filter":null|{"col":"k"|"v"|"w","op","c","d"}}]}
 //! Impl {"ok":{"shards":[{"stats":{"bytes","rows","splits"},"raw":[k..] (provider.scan(Some([0]))),"files_none":bool,
-//!                        "answers":[[[k,v|null],..] per query, sorted by k]}]}} | {"err":kind}
+//!                        "answers":[rows per query]  (SQL over the shard context; a row = the projected values in `cols` order, null = NULL; rows sorted),
+//!                        "provider":[rows per query | null] (scan_with_filter(projection, filter) when `cols` is increasing in table order)}],
+//!             "base":[rows per query] (the same SQL on the unsharded table)}} | {"err":kind}
 use crate::common::*;
 use crate::fams::fam_c11::{gen_rows, row_values, scratch};
 use crate::fams::fam_c14::{err_kind, keys_of, rt, write_copy};
@@ -11,6 +14,7 @@ use crate::rng::Rng;
 use arrow::array::{Array, Int64Array};
 use query_engine::distributed::coordinator::{shard_context, splits_of};
 use query_engine::distributed::assign_lpt;
+use query_engine::planner::{Expr, ScalarValue, UnaryOp};
 use query_engine::ExecutionContext;
 use serde_json::{json, Value};
 
@@ -32,23 +36,34 @@ pub fn query_sql(table: &str, q: &Value) -> String {
     s
 }
 
-/// rows of a result as [k, v|null], sorted by k; `cols` says where k and v sit
-fn rows_kv(batches: &[arrow::record_batch::RecordBatch], cols: &[String]) -> Value {
-    let ki = cols.iter().position(|c| c == "k");
-    let vi = cols.iter().position(|c| c == "v");
-    let mut out: Vec<(i64, Option<i64>)> = vec![];
+/// rows of a result: every (Int64) column in output order, null = NULL; sorted (None < Some)
+fn rows_all(batches: &[arrow::record_batch::RecordBatch]) -> Value {
+    let mut out: Vec<Vec<Option<i64>>> = vec![];
     for b in batches {
         if b.num_rows() == 0 { continue; }
-        let ka = ki.and_then(|i| b.column(i).as_any().downcast_ref::<Int64Array>().cloned());
-        let va = vi.and_then(|i| b.column(i).as_any().downcast_ref::<Int64Array>().cloned());
+        let cols: Vec<Option<Int64Array>> = (0..b.num_columns()).map(|i| b.column(i).as_any().downcast_ref::<Int64Array>().cloned()).collect();
         for r in 0..b.num_rows() {
-            let k = ka.as_ref().map(|a| a.value(r)).unwrap_or(-1);
-            let v = va.as_ref().and_then(|a| if a.is_valid(r) { Some(a.value(r)) } else { None });
-            out.push((k, v));
+            out.push(cols.iter().map(|c| c.as_ref().and_then(|a| if a.is_valid(r) { Some(a.value(r)) } else { None })).collect());
         }
     }
     out.sort();
-    Value::Array(out.into_iter().map(|(k, v)| json!([k, v])).collect())
+    json!(out)
+}
+
+pub fn col_index(c: &str) -> usize { match c { "k" => 0, "v" => 1, "w" => 2, _ => 3 } }
+
+/// the planner expression of a case filter (what the optimizer would push into `scan_with_filter`)
+pub fn pred_expr(f: &Value) -> Expr {
+    let col = Expr::column(f["col"].as_str().unwrap_or("k"));
+    let lit = |x: i64| Expr::literal(ScalarValue::Int64(x));
+    let (c, d) = (f["c"].as_i64().unwrap_or(0), f["d"].as_i64().unwrap_or(0));
+    match f["op"].as_str().unwrap_or("=") {
+        "isnull" => Expr::UnaryExpr { op: UnaryOp::IsNull, expr: Box::new(col) },
+        "notnull" => Expr::UnaryExpr { op: UnaryOp::IsNotNull, expr: Box::new(col) },
+        "between" => col.clone().gt_eq(lit(c)).and(col.lt_eq(lit(d))),
+        "<" => col.lt(lit(c)), "<=" => col.lt_eq(lit(c)), "=" => col.eq(lit(c)),
+        ">=" => col.gt_eq(lit(c)), ">" => col.gt(lit(c)), _ => col.not_eq(lit(c)),
+    }
 }
 
 fn run_shards(c: &mut Value) -> Value {
@@ -82,16 +97,32 @@ fn run_shards(c: &mut Value) -> Value {
             let raw = match prov.scan(Some(&[0])) { Ok(b) => json!(keys_of(&b)), Err(e) => json!({"err": e.to_string().chars().take(60).collect::<String>()}) };
             let files_none = prov.parquet_files().is_none();
             let mut answers = vec![];
+            let mut provider = vec![];
             for q in &queries {
-                let cols: Vec<String> = q["cols"].as_array().map(|a| a.iter().map(|x| x.as_str().unwrap_or("k").to_string()).collect()).unwrap_or_default();
                 match runtime.block_on(sctx.sql(&query_sql(&table, q))) {
-                    Ok(r) => answers.push(rows_kv(&r.batches, &cols)),
+                    Ok(r) => answers.push(rows_all(&r.batches)),
                     Err(e) => answers.push(json!({"err": e.to_string().chars().take(80).collect::<String>()})),
                 }
+                let idx: Vec<usize> = q["cols"].as_array().map(|a| a.iter().map(|x| col_index(x.as_str().unwrap_or("k"))).collect()).unwrap_or_default();
+                if idx.windows(2).all(|w| w[0] < w[1]) {
+                    let e = if q["filter"].is_null() { None } else { Some(pred_expr(&q["filter"])) };
+                    match prov.scan_with_filter(Some(&idx), e.as_ref()) {
+                        Ok(b) => provider.push(rows_all(&b)),
+                        Err(e) => provider.push(json!({"err": e.to_string().chars().take(80).collect::<String>()})),
+                    }
+                } else { provider.push(Value::Null); }
             }
-            shards.push(json!({"stats": {"bytes": st.bytes, "rows": st.rows, "splits": st.splits}, "raw": raw, "files_none": files_none, "answers": answers}));
+            shards.push(json!({"stats": {"bytes": st.bytes, "rows": st.rows, "splits": st.splits}, "raw": raw, "files_none": files_none,
+                               "answers": answers, "provider": provider}));
         }
-        json!({"ok": {"shards": shards}})
+        let mut base = vec![];
+        for q in &queries {
+            match runtime.block_on(ctx.sql(&query_sql(&table, q))) {
+                Ok(r) => base.push(rows_all(&r.batches)),
+                Err(e) => base.push(json!({"err": e.to_string().chars().take(80).collect::<String>()})),
+            }
+        }
+        json!({"ok": {"shards": shards, "base": base}})
     });
     let _ = std::fs::remove_dir_all(&root);
     out
@@ -101,13 +132,37 @@ pub fn run_case(c: &mut Value) -> Value {
     match c["kind"].as_str().unwrap_or("") { "shards" => run_shards(c), _ => json!({"bad_case": true}) }
 }
 
-fn gen_filter(r: &mut Rng, nrows: u64) -> Value {
-    let on_k = r.chance(1, 2);
-    let col = if on_k { "k" } else { "v" };
-    let c = if on_k { r.range(-2, nrows as i64 + 2) } else { r.range(-4, 13) };
-    let op = *r.pick(&["<", "<=", "=", ">=", ">", "<>", "between", "isnull", "notnull"]);
-    let d = c + r.range(-1, if on_k { (nrows / 2) as i64 + 1 } else { 6 });
+fn gen_filter_on(r: &mut Rng, col: &str, nrows: u64) -> Value {
+    let c = match col { "k" => r.range(-2, nrows as i64 + 2), "w" => 1_000_000 + 3 * r.range(-2, nrows as i64 + 2) + r.range(0, 2), _ => r.range(-4, 13) };
+    let op = *r.pick(&["<", "<=", "=", ">=", ">", "<>", "between", "isnull", "notnull", "<=", ">="]);
+    let d = c + match col { "k" => r.range(-1, (nrows / 2) as i64 + 1), "w" => r.range(-1, 3 * (nrows / 2) as i64 + 1), _ => r.range(-1, 6) };
     json!({"col": col, "op": op, "c": c, "d": d})
+}
+
+/// a non-empty sub-sequence of (k, v, w), possibly permuted
+fn gen_cols(r: &mut Rng, permute: bool) -> Vec<&'static str> {
+    let all = ["k", "v", "w"];
+    loop {
+        let mut c: Vec<&'static str> = all.iter().copied().filter(|_| r.chance(1, 2)).collect();
+        if c.is_empty() { continue; }
+        if permute { r.shuffle(&mut c); }
+        return c;
+    }
+}
+
+fn gen_query(r: &mut Rng, nrows: u64) -> Value {
+    match r.below(10) {
+        // the shape that moves the filter column: project a sub-sequence that skips an earlier column, filter on a projected column
+        0..=4 => {
+            let cols: Vec<&'static str> = match r.below(6) { 0 => vec!["v"], 1 => vec!["w"], 2 => vec!["v", "w"], 3 => vec!["w", "v"], 4 => vec!["w", "k"], _ => vec!["k", "w"] };
+            let moved: Vec<&&str> = cols.iter().filter(|c| { let i = col_index(c); (0..i).any(|j| !cols.iter().any(|x| col_index(x) == j)) }).collect();
+            let fc = if moved.is_empty() { cols[0] } else { **r.pick(&moved) };
+            json!({"cols": cols, "filter": gen_filter_on(r, fc, nrows)})
+        }
+        5 | 6 => { let cols = gen_cols(r, true); let fc = *r.pick(&["k", "v", "w"]); json!({"cols": cols, "filter": gen_filter_on(r, fc, nrows)}) }
+        7 => json!({"cols": gen_cols(r, true), "filter": null}),
+        _ => { let cols = gen_cols(r, false); let fc = *r.pick(&cols); json!({"cols": cols, "filter": gen_filter_on(r, fc, nrows)}) }
+    }
 }
 
 fn gen_shards(r: &mut Rng, id: u64) -> Value {
@@ -123,11 +178,8 @@ fn gen_shards(r: &mut Rng, id: u64) -> Value {
         json!({"name": bytes_json(n.as_bytes()), "rows": rows, "pad": *r.pick(&[0u64, 0, 8, 64]), "seed": r.below(1 << 30), "junk": false})
     }).collect();
     let nodes = match r.below(8) { 0 => 0, 1 => 1, 2 => 12 + r.below(20), _ => 2 + r.below(7) };
-    let mut queries = vec![json!({"cols": ["k", "v"], "filter": null})];
-    for _ in 0..(1 + r.below(3)) {
-        let cols = match r.below(4) { 0 => json!(["k"]), 1 => json!(["v", "k"]), _ => json!(["k", "v"]) };
-        queries.push(json!({"cols": cols, "filter": gen_filter(r, total)}));
-    }
+    let mut queries = vec![json!({"cols": ["k", "v", "w"], "filter": null})];
+    for _ in 0..(2 + r.below(4)) { queries.push(gen_query(r, total)); }
     json!({"kind": "shards", "id": id, "table": *r.pick(&["t", "lineitem"]), "nodes": nodes, "files": files, "queries": queries})
 }
 
